@@ -464,3 +464,291 @@ void h_value_category(void) { VF_INPUT(int, a); VF_INPUT(int, b); VF_INPUT(unsig
   default: { PMk q; mk_pair(&q, b, a); mk_passign_lv(&q, &p); VF_ASSERT(mk_pval(&q) == a && mk_pval(&p) == a, "C20: pair copy assignment copies each element"); } break;
   }
   VF_REACH(); }
+
+/*@COMMON@*/
+/* ==== value categories II: reference elements, converting operations, every call overload of the wrappers ==========================
+ * Mk's move constructor / move assignment mark their source (v == MOVED afterwards); a copy leaves the source alone.  Every object
+ * below is symbolic (all bytes), reference elements are bound to a live symbolic Mk (that is the whole representation invariant);
+ * wrappers (bind_front_t, not_fn_t) are arbitrary representations whose target logs into the harness's Log.
+ * Oracle: [pairs.pair]/6-.. (first initialised / assigned with forward<U1>(p.first)): value element of an rvalue pair -> moved from,
+ * lvalue-reference element -> copied from, rvalue-reference element -> moved from; [tuple.elem] get<I>(T&&) is forward<E&&>;
+ * [func.bind.partial] g(call...) == invoke(fd, bound..., call...) with fd / bound taking the value category and constness of g;
+ * [func.not.fn] likewise; [refwrap.invoke] invoke(get(), forward<Args>(args)...). */
+typedef struct vf_Mk Mk; typedef struct vf_Q4 Q4; typedef struct vf_TgtV TgtV; typedef struct vf_TakeMk TakeMk; typedef struct vf_CatP CatP;
+typedef struct etl_pair_vf_Mk_long PMkL; typedef struct etl_pair_long_vf_Mk PLMk; typedef struct etl_pair_vf_MkR_int PRi; typedef struct etl_pair_int_vf_MkR PiR;
+typedef struct etl_pair_constvf_MkR_int PCi; typedef struct etl_pair_vf_MkRR_int PXi;
+typedef struct etl_tuple_vf_MkR_int TRi; typedef struct etl_tuple_constvf_MkR_int TCi; typedef struct etl_tuple_vf_MkRR_int TXi; typedef struct etl_tuple_vf_Mk_int_vf_Mk_int TMk2;
+typedef struct etl_detail_bind_front_t_vf_TgtV_vf_Mk BFV; typedef struct etl_detail_bind_front_t_vf_Cat4_vf_Mk BFC; typedef struct etl_detail_bind_front_t_vf_CatA_int BFA;
+typedef struct etl_detail_not_fn_t_vf_Q4 NFQ; typedef struct etl_detail_not_fn_t_vf_CatP NFP; typedef struct etl_inplace_function_int_vf_Mk_int_16_8 IFV;
+#define MOVED (-1)
+/* modes: 0 lvalue, 1 const lvalue, 2 rvalue, 3 const rvalue.  ARGCAT: the overload a Mk argument of that category selects in the probes
+ * Cat4 / CatA / CatP (1 Mk&&, 2 Mk&, 3 Mk const&, 4 Mk const&&); FNCAT: the call operator of Q4 / TgtV that runs (1 &, 2 const&, 3 &&, 4 const&&) */
+static int ARGCAT(int mode) { return mode == 0 ? 2 : (mode == 1 ? 3 : (mode == 2 ? 1 : 4)); }
+#define FNCAT(mode) ((mode) + 1)
+#define TMK0(t) ((t)._impl.b0._value.v)
+#define TMK1(t) ((t)._impl.b1._value)
+#define TREF(t) ((t)._impl.b0._value)   /* reference element: the lowered member is a pointer */
+#define BOUND(w) ((w)._boundArgs._impl.b0._value)
+/* inplace_function<int(int),16,8> holding a Q4 (constructed from Q4 const&, Q4&&, Q4&), inplace_function<int(int),32,8> holding a BFV */
+#ifdef VF_NATIVE
+static VT *VT_Q4_C, *VT_Q4_M, *VT_Q4_L, *VT_BFV_C, *VT_BFV_M;
+static void vtq_init(void) { IF t; IFW u; Q4 q; BFV w; memset(&q, 0, sizeof q); memset(&w, 0, sizeof w); vt_init();
+  if_from_q4(&t, &q); VT_Q4_C = t._vtable; if_from_q4_rv(&t, &q); VT_Q4_M = t._vtable; if_default(&t); if_assign_q4(&t, &q, 0); VT_Q4_L = t._vtable;
+  ifw_from_bfv(&u, &w); VT_BFV_C = u._vtable; ifw_from_bfv_rv(&u, &w); VT_BFV_M = u._vtable; }
+#else
+#define VT_Q4_C ((VT *)&g__ZZN3etl16inplace_functionIFiiELm16ELm8EEC1IRKN2vf2Q4ES5_EEOT_E2vt)
+#define VT_Q4_M ((VT *)&g__ZZN3etl16inplace_functionIFiiELm16ELm8EEC1IN2vf2Q4ES5_EEOT_E2vt)
+#define VT_Q4_L ((VT *)&g__ZZN3etl16inplace_functionIFiiELm16ELm8EEC1IRN2vf2Q4ES5_EEOT_E2vt)
+#define VT_BFV_C ((VT *)&g__ZZN3etl16inplace_functionIFiiELm32ELm8EEC1IRKNS_6detail12bind_front_tIN2vf4TgtVEJNS6_2MkEEEES9_EEOT_E2vt)
+#define VT_BFV_M ((VT *)&g__ZZN3etl16inplace_functionIFiiELm32ELm8EEC1INS_6detail12bind_front_tIN2vf4TgtVEJNS6_2MkEEEES9_EEOT_E2vt)
+#define vtq_init() ((void)0)
+#endif
+#define HOLDS_Q4(f) ((f)._vtable == VT_Q4_C || (f)._vtable == VT_Q4_M || (f)._vtable == VT_Q4_L)
+#define Q4_OF(f) ((Q4 *)&(f)._storage)
+#define HOLDS_BFV(f) ((f)._vtable == VT_BFV_C || (f)._vtable == VT_BFV_M)
+#define BFV_OF(f) ((BFV *)&(f)._storage)
+/* arbitrary well-formed wrapper: sel 0..2 holds a Q4 {lg, m} behind one of its three vtables, sel 3 is empty */
+static void mk_ifq(IF *f, unsigned char sel, Log *lg, int m) { vtq_init(); __CPROVER_assume(sel <= 3);
+#ifdef VF_NATIVE
+  Q4 q; memset(&q, 0, sizeof q); q.log = lg; q.m.v = m;
+  if (sel == 0) if_from_q4(f, &q); else if (sel == 1) if_from_q4_rv(f, &q); else if (sel == 2) { if_default(f); if_assign_q4(f, &q, 0); } else if_default(f);
+#else
+  f->_vtable = sel == 0 ? VT_Q4_C : (sel == 1 ? VT_Q4_M : (sel == 2 ? VT_Q4_L : VT_EMPTY));
+  if (sel <= 2) { Q4_OF(*f)->log = lg; Q4_OF(*f)->m.v = m; }
+#endif
+}
+/* sel 0..1 holds a BFV {target {lg, tag}, bound}, sel 2 is empty */
+static void mk_ifw(IFW *f, unsigned char sel, Log *lg, int bound, int tag) { vtq_init(); __CPROVER_assume(sel <= 2);
+#ifdef VF_NATIVE
+  BFV w; memset(&w, 0, sizeof w); w._func.log = lg; w._func.tag.v = tag; BOUND(w).v = bound; IF e;
+  if (sel == 0) ifw_from_bfv(f, &w); else if (sel == 1) ifw_from_bfv_rv(f, &w); else { if_default(&e); ifw_move(f, &e); }
+#else
+  f->_vtable = sel == 0 ? VT_BFV_C : (sel == 1 ? VT_BFV_M : VT_EMPTY);
+  if (sel <= 1) { BFV_OF(*f)->_func.log = lg; BFV_OF(*f)->_func.tag.v = tag; BOUND(*BFV_OF(*f)).v = bound; }
+#endif
+}
+
+/* ---- pair: converting copy/move construction and assignment over the element kinds value / T& (first, second) / T const& / T&& ------- */
+/*@GROUP name=pair_conv_cat props=C20,C02 kind=F@*/
+void h_pair_conv_cat(void) { VF_INPUT(Mk, o); VF_INPUT(unsigned char, src); VF_INPUT(unsigned char, op); VF_INPUT(PMk, sv); VF_INPUT(PRi, sr); VF_INPUT(PiR, ss); VF_INPUT(PCi, sc); VF_INPUT(PXi, sx);
+  VF_INPUT(PMkL, d); VF_INPUT(PLMk, e); __CPROVER_assume(src <= 4 && op <= 3);
+  sr.first = &o; ss.second = &o; sc.first = &o; sx.first = &o;   /* well-formed: the reference element is bound to a live object */
+  int v0 = src == 0 ? sv.first.v : o.v; int i0 = src == 0 ? sv.second : (src == 1 ? sr.second : (src == 2 ? ss.first : (src == 3 ? sc.second : sx.second)));
+  _Bool rv = op == 1 || op == 3;   /* op: 0 pair(pair<U1,U2> const&), 1 pair(pair<U1,U2>&&), 2 operator=(pair<U1,U2> const&), 3 operator=(pair<U1,U2>&&) */
+  VF_KNOWN(C20_pair_conv_move_assign_ref, (src == 1 || src == 2) && op == 3);
+  if (src == 0) { if (op == 0) pv_cc(&d, &sv); else if (op == 1) pv_cm(&d, &sv); else if (op == 2) pv_ca(&d, &sv); else pv_cma(&d, &sv); }
+  else if (src == 1) { if (op == 0) pr_cc(&d, &sr); else if (op == 1) pr_cm(&d, &sr); else if (op == 2) pr_ca(&d, &sr); else pr_cma(&d, &sr); }
+  else if (src == 2) { if (op == 0) ps_cc(&e, &ss); else if (op == 1) ps_cm(&e, &ss); else if (op == 2) ps_ca(&e, &ss); else ps_cma(&e, &ss); }
+  else if (src == 3) { if (op == 0) pc_cc(&d, &sc); else if (op == 1) pc_cm(&d, &sc); else if (op == 2) pc_ca(&d, &sc); else pc_cma(&d, &sc); }
+  else { if (op == 0) px_cc(&d, &sx); else if (op == 1) px_cm(&d, &sx); else if (op == 2) px_ca(&d, &sx); else px_cma(&d, &sx); }
+  if (src == 2) VF_ASSERT(e.first == (long)i0 && e.second.v == v0, "pair<long,Mk> converting construction/assignment from pair<int,Mk&>: each element converted from the source's element");
+  else VF_ASSERT(d.first.v == v0 && d.second == (long)i0, "pair<Mk,long> converting construction/assignment from pair<Mk|Mk&|Mk const&|Mk&&, int>: each element converted from the source's element");
+  if (src == 0) VF_ASSERT(sv.first.v == (rv ? MOVED : v0) && sv.second == i0, "C20: VALUE element: forward<U1>(p.first) of an rvalue pair is an rvalue (moved from); a const pair& is copied from");
+  else if (src == 4) VF_ASSERT(o.v == (rv ? MOVED : v0), "C20: RVALUE-reference element: forward<Mk&&>(p.first) of an rvalue pair is an rvalue (the referenced object is moved from); a const pair& is copied from");
+  else VF_ASSERT(o.v == v0, "C20: LVALUE-reference element (Mk&, Mk const&): forward<U1>(p.first) is an lvalue whatever the category of the pair: the referenced object is copied from, never moved from");
+  VF_ASSERT(sr.first == &o && ss.second == &o && sc.first == &o && sx.first == &o && sr.second == (src == 1 ? i0 : sr.second), "the source's references stay bound");
+  VF_REACH(); }
+
+/* ---- pair with a reference element: construction binds, copy/move construction rebind, assignment and swap act on the REFERENCED object */
+/*@GROUP name=pair_ref_ops props=C20,C02 kind=F@*/
+void h_pair_ref_ops(void) { VF_INPUT(Mk, o); VF_INPUT(Mk, o2); VF_INPUT(int, i); VF_INPUT(PRi, a); VF_INPUT(PRi, b); VF_INPUT(PCi, c); VF_INPUT(PXi, x); VF_INPUT(PMk, sv); VF_INPUT(unsigned char, w); VF_INPUT_BOOL(alias);
+  __CPROVER_assume(w <= 9); Mk *ob = alias ? &o : &o2; a.first = &o; b.first = ob; c.first = &o; x.first = &o;
+  int v0 = o.v, v2 = ob->v, o20 = o2.v, a2 = a.second, b2 = b.second, s0 = sv.first.v, s1 = sv.second;
+  VF_KNOWN(C20_pair_move_assign_ref, w == 3);
+  if (w == 0) { pri_ctor(&a, &o2, i); VF_ASSERT(a.first == &o2 && a.second == i && o2.v == o20 && o.v == v0, "pair<Mk&,int>(x, i): first IS x (bound, nothing copied), second == i"); }
+  else if (w == 1 || w == 2) { if (w == 1) pri_copy(&a, &b); else pri_move(&a, &b);
+    VF_ASSERT(a.first == ob && a.second == b2 && b.first == ob && b.second == b2 && ob->v == v2 && o.v == v0, "pair<Mk&,int> copy / move construction bind to the same object; the referenced object is neither copied nor moved from"); }
+  else if (w == 3) { pri_move_assign(&a, &b);
+    VF_ASSERT(a.first == &o && b.first == ob && a.second == b2, "pair<Mk&,int> = pair<Mk&,int>&&: references are not rebound; second assigned");
+    VF_ASSERT(o.v == v2, "assignment writes THROUGH the reference: the target's referenced object takes the value of the source's");
+    VF_ASSERT(ob->v == v2, "C20: first = forward<Mk&>(p.first) is an lvalue: the source's referenced object is copied from, never moved from"); }
+  else if (w == 4 || w == 5) { if (w == 4) pw_ca(&a, &sv); else pw_cma(&a, &sv);
+    VF_ASSERT(a.first == &o && o.v == s0 && a.second == s1, "pair<Mk&,int> = pair<Mk,int> const& / &&: assigns through the reference, element by element");
+    VF_ASSERT(sv.first.v == (w == 5 ? MOVED : s0) && sv.second == s1, "C20: a VALUE element of an rvalue source is moved from, of a const lvalue source copied from"); }
+  else if (w == 6) { pri_swap(&a, &b);
+    VF_ASSERT(a.first == &o && b.first == ob && a.second == b2 && b.second == a2, "pair<Mk&,int>::swap: references stay bound, second exchanged");
+    VF_ASSERT(o.v == v2 && ob->v == v0, "swap exchanges the values of the referenced objects (nothing is lost when both refer to the same object)"); }
+  else if (w == 7) VF_ASSERT(pri_get0(&a) == &o && pri_cget0(&a) == &o && pci_get0(&c) == &o && pri_get1(&a) == &a.second && o.v == v0, "get<0>(pair<Mk&,int>&/const&), get<0>(pair<Mk const&,int>&) are the referenced object itself");
+  else if (w == 8) VF_ASSERT(pxi_get_rv(&x) == v0 && o.v == MOVED, "C20: get<0>(pair<Mk&&,int>&&) is an rvalue: initialising from it moves from the referenced object");
+  else VF_ASSERT(pxi_get_lv(&x) == v0 && o.v == v0, "C20: get<0>(pair<Mk&&,int>&) is an lvalue (reference collapsing): initialising from it copies");
+  VF_REACH(); }
+
+/* ---- pair<Mk,int>: forwarding constructors, make_pair, swap, get / apply / make_from_tuple in all four value categories ---------------- */
+/*@GROUP name=pair_fwd props=C20,C02 kind=F@*/
+void h_pair_fwd(void) { VF_INPUT(Mk, a); VF_INPUT(int, b); VF_INPUT(PMk, p); VF_INPUT(PMk, q); VF_INPUT(unsigned char, w); VF_INPUT(unsigned char, mode); VF_INPUT_BOOL(fr); VF_INPUT_BOOL(self);
+  __CPROVER_assume(w <= 8 && mode <= 3); int a0 = a.v, b0 = b, p0 = p.first.v, p1 = p.second, q0 = q.first.v, q1 = q.second;
+  if (w <= 4) { if (w == 0) pmk_ctor_lv(&p, &a, &b); else if (w == 1) pmk_ctor_clv(&p, &a, &b); else if (w == 2) pmk_ctor_rv(&p, &a, b); else if (w == 3) pmk_make_lv(&p, &a, &b); else pmk_make_rv(&p, &a, b);
+    VF_ASSERT(p.first.v == a0 && p.second == b0 && b == b0, "pair<Mk,int>(x, y) [U1&&,U2&& and T1 const&,T2 const&], make_pair(x, y): first == x, second == y");
+    VF_ASSERT(a.v == ((w == 2 || w == 4) ? MOVED : a0), "C20: forward<U1>(x): an lvalue argument is copied from (unchanged), an rvalue argument is moved from"); }
+  else if (w == 5) { if (self) { pmk_swap(&p, &p, fr); VF_ASSERT(p.first.v == p0 && p.second == p1, "pair<Mk,int> self-swap keeps both elements (move-based swap restores the value)"); }
+    else { pmk_swap(&p, &q, fr); VF_ASSERT(p.first.v == q0 && p.second == q1 && q.first.v == p0 && q.second == p1, "pair<Mk,int>::swap / swap(x,y): elements exchanged, no value left in the moved-from state"); } }
+  else if (w == 6) VF_ASSERT(pmk_getcat(&p, mode) == ARGCAT(mode) && p.first.v == p0 && p.second == p1, "C20: get<0>(pair&) is Mk&, (pair const&) Mk const&, (pair&&) Mk&&, (pair const&&) Mk const&&; get moves nothing by itself");
+  else if (w == 7) VF_ASSERT(pmk_applycat(&p, mode) == ARGCAT(mode) && p.first.v == p0 && p.second == p1, "C20: apply(f, pair) passes get<I>(forward<Pair>(p)): the element arrives with the pair's value category and constness");
+  else VF_ASSERT(pmk_from(&p, mode) == p0 && p.first.v == (mode == 2 ? MOVED : p0) && p.second == p1, "C20: make_from_tuple<T>(pair): T's by-value parameter is move-constructed from a non-const rvalue pair only, copy-constructed otherwise");
+  VF_REACH(); }
+
+/* ---- tuple<Mk,int>: same sweep ------------------------------------------------------------------------------------------------------- */
+/*@GROUP name=tuple_fwd props=C20,C02 kind=F@*/
+void h_tuple_fwd(void) { VF_INPUT(Mk, a); VF_INPUT(int, b); VF_INPUT(TMk, p); VF_INPUT(TMk, q); VF_INPUT(unsigned char, w); VF_INPUT(unsigned char, mode); VF_INPUT_BOOL(self);
+  __CPROVER_assume(w <= 8 && mode <= 3); int a0 = a.v, b0 = b, p0 = TMK0(p), p1 = TMK1(p), q0 = TMK0(q), q1 = TMK1(q);
+  if (w <= 4) { if (w == 0) tmk_ctor_lv(&p, &a, &b); else if (w == 1) tmk_ctor_clv(&p, &a, &b); else if (w == 2) tmk_ctor_rv(&p, &a, b); else if (w == 3) tmk_make_lv(&p, &a, &b); else tmk_make_rv(&p, &a, b);
+    VF_ASSERT(TMK0(p) == a0 && TMK1(p) == b0 && b == b0, "tuple<Mk,int>(x, y) [Args&&... and Ts const&...], make_tuple(x, y): element I == argument I");
+    VF_ASSERT(a.v == ((w == 2 || w == 4) ? MOVED : a0), "C20: forward<Args>(args): an lvalue argument is copied from (unchanged), an rvalue argument is moved from"); }
+  else if (w == 5) { if (self) { tmk_swap(&p, &p); VF_ASSERT(TMK0(p) == p0 && TMK1(p) == p1, "tuple<Mk,int> self-swap keeps every element"); }
+    else { tmk_swap(&p, &q); VF_ASSERT(TMK0(p) == q0 && TMK1(p) == q1 && TMK0(q) == p0 && TMK1(q) == p1, "tuple<Mk,int>::swap: elements exchanged, no value left in the moved-from state"); } }
+  else if (w == 6) VF_ASSERT(tmk_getcat(&p, mode) == ARGCAT(mode) && TMK0(p) == p0 && TMK1(p) == p1, "C20: get<0>(tuple&) is Mk&, (tuple const&) Mk const&, (tuple&&) Mk&&, (tuple const&&) Mk const&&; get moves nothing by itself");
+  else if (w == 7) VF_ASSERT(tmk_applycat(&p, mode) == ARGCAT(mode) && TMK0(p) == p0 && TMK1(p) == p1, "C20: apply(f, tuple) passes get<I>(forward<Tuple>(t)): the element arrives with the tuple's value category and constness");
+  else VF_ASSERT(tmk_from(&p, mode) == p0 && TMK0(p) == (mode == 2 ? MOVED : p0) && TMK1(p) == p1, "C20: make_from_tuple<T>(tuple): T's by-value parameter is move-constructed from a non-const rvalue tuple only, copy-constructed otherwise");
+  VF_REACH(); }
+
+/*@GROUP name=tuple_cat_fwd props=C20,C02 kind=F when=VF_TUPLE_CAT@*/
+void h_tuple_cat_fwd(void) { VF_INPUT(TMk, t); VF_INPUT(TMk, u); VF_INPUT(TMk, r); VF_INPUT(TMk2, r2); VF_INPUT(unsigned char, w); VF_INPUT_BOOL(rv); __CPROVER_assume(w <= 1);
+  int t0 = TMK0(t), t1 = TMK1(t), u0 = TMK0(u), u1 = TMK1(u);
+  if (w == 0) { tcat_mk(&r, &t, rv ? 2 : 1);
+    VF_ASSERT(TMK0(r) == t0 && TMK1(r) == t1 && TMK1(t) == t1, "tuple_cat(t) == t, element by element");
+    VF_ASSERT(TMK0(t) == (rv ? MOVED : t0), "C20: tuple_cat(tuple&&) moves the elements out, tuple_cat(tuple const&) copies them"); }
+  else { tcat_mk2(&r2, &t, &u, rv);
+    VF_ASSERT(r2._impl.b0._value.v == t0 && r2._impl.b1._value == t1 && r2._impl.b2._value.v == u0 && r2._impl.b3._value == u1, "tuple_cat(t, u): the elements of t followed by the elements of u");
+    VF_ASSERT(TMK0(t) == (rv ? MOVED : t0) && TMK0(u) == (rv ? u0 : MOVED) && TMK1(t) == t1 && TMK1(u) == u1, "C20: tuple_cat forwards EACH argument with its own value category: the rvalue tuple is moved from, the const lvalue tuple copied from"); }
+  VF_REACH(); }
+
+/* ---- tuple with reference elements, tie / forward_as_tuple round trips ----------------------------------------------------------------- */
+/*@GROUP name=tuple_ref props=C20,C02 kind=F@*/
+void h_tuple_ref(void) { VF_INPUT(Mk, o); VF_INPUT(Mk, o2); VF_INPUT(int, i); VF_INPUT(int, j); VF_INPUT(TRi, a); VF_INPUT(TRi, b); VF_INPUT(TCi, c); VF_INPUT(TXi, x); VF_INPUT(unsigned char, w); VF_INPUT_BOOL(alias); VF_INPUT_BOOL(rv);
+  __CPROVER_assume(w <= 16); Mk *ob = alias ? &o : &o2; TREF(a) = &o; TREF(b) = ob; TREF(c) = &o; TREF(x) = &o;
+  int v0 = o.v, v2 = ob->v, o20 = o2.v, a1 = TMK1(a), b1 = TMK1(b), i0 = i;
+  if (w == 0) { tri_ctor(&a, &o2, i); VF_ASSERT(TREF(a) == &o2 && TMK1(a) == i && o.v == v0 && o2.v == o20, "tuple<Mk&,int>(x, i): element 0 IS x (bound, nothing copied), element 1 == i"); }
+  else if (w == 1) { if (rv) tri_move(&a, &b); else tri_copy(&a, &b);
+    VF_ASSERT(TREF(a) == ob && TMK1(a) == b1 && TREF(b) == ob && TMK1(b) == b1 && ob->v == v2 && o.v == v0, "tuple<Mk&,int> copy / move construction bind to the same object; the referenced object is neither copied nor moved from"); }
+  else if (w == 2) { tri_swap(&a, &b);
+    VF_ASSERT(TREF(a) == &o && TREF(b) == ob && TMK1(a) == b1 && TMK1(b) == a1 && o.v == v2 && ob->v == v0, "tuple<Mk&,int>::swap exchanges the values of the referenced objects; the references stay bound"); }
+  else if (w == 3) VF_ASSERT(tri_get0(&a) == &o && tri_cget0(&a) == &o && tci_get0(&c) == &o && o.v == v0, "get<0>(tuple<Mk&,int>&/const&), get<0>(tuple<Mk const&,int>&) are the referenced object itself");
+  else if (w == 4) VF_ASSERT((rv ? tri_init_clv(&a) : tri_init_lv(&a)) == v0 && o.v == v0, "C20: get<0>(tuple<Mk&,int>&/const&) is an lvalue: initialising from it copies");
+  else if (w == 5) { int cat = tri_applycat(&a, rv);
+    if (VF_KNOWN_GUARD(C20_tuple_const_get_ref, rv)) VF_ASSERT(cat == 2, "C20: apply(f, tuple<Mk&,int>&/const&): a reference element is passed as Mk& - constness of the tuple does not propagate through a reference element ([tuple.elem]: tuple_element_t<I,T> const& collapses to Mk&)");
+    VF_ASSERT(tci_applycat(&c) == 3 && o.v == v0, "apply(f, tuple<Mk const&,int>&) passes Mk const&"); }
+  else if (w == 6) VF_ASSERT(tri_eq(&a, &b) == (v0 == v2 && a1 == b1) && o.v == v0, "tuple<Mk&,int> == compares the referenced objects");
+  else if (w == 7) VF_ASSERT(txi_get_rv(&x) == v0 && o.v == MOVED, "C20: get<0>(tuple<Mk&&,int>&&) is an rvalue: initialising from it moves from the referenced object");
+  else if (w == 8) VF_ASSERT(txi_get_lv(&x) == v0 && o.v == v0, "C20: get<0>(tuple<Mk&&,int>&) is an lvalue (reference collapsing): initialising from it copies");
+  else if (w == 9) VF_ASSERT(txi_applycat(&x, rv) == (rv ? 1 : 2) && o.v == v0, "C20: apply(f, tuple<Mk&&,int>&&) passes Mk&&, apply(f, tuple<Mk&&,int>&) passes Mk&");
+  else if (w == 10) VF_ASSERT(txi_from_rv(&x) == v0 && o.v == MOVED, "C20: make_from_tuple<T>(tuple<Mk&&,int>&&) moves the referenced object into T's constructor");
+  else if (w == 11) VF_ASSERT(tie_addr(&o, &i) == &o && tie_init(&o, &i) == ENC3(v0, i0, 0) && o.v == v0 && i == i0, "tie(a, i): get<0> is a itself; initialising from get<0>(tie&) copies");
+  else if (w == 12) { tie_store(&o, &i, ob, j, rv);
+    VF_ASSERT(o.v == v2 && i == j, "get<I>(tie(a, i)) = v writes through to the tied objects");
+    VF_ASSERT(ob->v == ((rv && !alias) ? MOVED : v2), "C20: assigning an lvalue through a tied reference copies from it, assigning an rvalue moves from it"); }
+  else if (w == 13) VF_ASSERT(fat_addr(&o) == &o && fat_addr_rv(&o) == &o && o.v == v0, "forward_as_tuple(a) / forward_as_tuple(move(a)): element 0 is a itself; forming the tuple moves nothing");
+  else if (w == 14) VF_ASSERT(fat_init(&o, rv) == v0 && o.v == (rv ? MOVED : v0), "C20: get<0>(forward_as_tuple(move(a))) of an rvalue tuple is an rvalue (moved from), of the named tuple an lvalue (copied from)");
+  else if (w == 15) VF_ASSERT(fat_applycat_rv(&o, i) == 1 && fat_applycat_crv(&o, i) == 4 && fat_applycat_clv(&o, &i) == 3 && o.v == v0, "C20: apply(f, forward_as_tuple(x...)) delivers each x with the category it was given: Mk&&, Mk const&&, Mk const&");
+  else VF_ASSERT(fat_from_rv(&o, i) == v0 && o.v == MOVED, "C20: make_from_tuple<T>(forward_as_tuple(move(a), i)) moves a into T's constructor");
+  VF_REACH(); }
+
+/* ---- invoke / invoke_r, reference_wrapper, function_ref: category of the callable and of the arguments ---------------------------------- */
+/*@GROUP name=invoke_cat props=C20,C02 kind=F when=VF_FUNCTION_REF@*/
+void h_invoke_cat(void) { VF_INPUT(Log, l); VF_INPUT(Q4, f); VF_INPUT(Mk, m); VF_INPUT(int, x); VF_INPUT(unsigned char, w); VF_INPUT(unsigned char, mode); VF_INPUT(unsigned char, how); VF_INPUT_BOOL(r); __CPROVER_assume(w <= 8 && mode <= 3 && how <= 3);
+  f.log = &l; TakeMk tk; tk.log = &l; Log o = l; int f0 = f.m.v, m0 = m.v;
+  if (w == 0) { int res = ivq_call(&f, x, mode, how);
+    VF_ASSERT(l.calls == o.calls + 1u && l.a0 == x && l.a2 == o.a2 && res == (how == 2 ? 0 : (f0 ^ x)), "invoke / invoke_r<long> / invoke_r<void>(f, x), apply(f, tuple<int>{x}): called exactly once with x, result unchanged (discarded by invoke_r<void>)");
+    VF_ASSERT(l.a1 == FNCAT(mode), "C20: invoke / invoke_r / apply (forward<F>(f)) call f with the value category and constness it was passed with (&, const&, &&, const&& call operator)");
+    VF_ASSERT(f.m.v == (mode == 2 ? MOVED : f0), "only the && call operator (which consumes the callable) changes f"); }
+  else if (w == 1) VF_ASSERT(ivc_cat(&m, mode, r) == ARGCAT(mode) && m.v == m0, "C20: invoke / invoke_r<int>(f, a, 0) forward a: Mk& / Mk const& / Mk&& / Mk const&& reaches the matching overload; nothing is moved by forwarding");
+  else if (w == 2 || w == 3 || w == 8) { int res = w == 2 ? ivv_call(&tk, &m, x, mode) : (w == 3 ? rwv_call(&tk, &m, x, mode) : ifv_roundtrip(&tk, &m, x, mode));
+    VF_ASSERT(logged2(&l, &o, m0, x) && res == ENC3(m0, x, 0), "invoke(f, a, x) / ref(f)(a, x) / inplace_function<int(Mk,int)>(f)(a, x) with a by-value parameter: the target sees a's value, called exactly once");
+    VF_ASSERT(m.v == (mode == 2 ? MOVED : m0), "C20: the by-value parameter is move-constructed from a non-const rvalue argument only; lvalue and const arguments are copied (unchanged)"); }
+  else if (w == 4) { int res = rwq_call(&f, x, r);
+    VF_ASSERT(l.calls == o.calls + 1u && l.a0 == x && res == (f0 ^ x) && f.m.v == f0, "reference_wrapper::operator(): the referenced callable is called exactly once with x, result unchanged, not consumed");
+    VF_ASSERT(l.a1 == (r ? 2 : 1), "C20: ref(f)(x) calls f as a non-const lvalue, cref(f)(x) as a const lvalue"); }
+  else if (w == 5) VF_ASSERT(rwc_cat(&m, mode) == ARGCAT(mode) && m.v == m0, "C20: reference_wrapper::operator() forwards its arguments (Mk& / Mk const& / Mk&& / Mk const&&)");
+  else if (w == 6) { int res = frq_call(&f, x, r);
+    VF_ASSERT(l.calls == o.calls + 1u && l.a0 == x && res == (f0 ^ x) && f.m.v == f0, "function_ref::operator(): the referenced callable is called exactly once with x, result unchanged, not consumed");
+    VF_ASSERT(l.a1 == (r ? 2 : 1), "C20: function_ref(f) calls f as a non-const lvalue, function_ref(as_const(f)) as a const lvalue"); }
+  else { __CPROVER_assume(mode <= 2); VF_ASSERT(frx_cat(&m, mode) == (mode == 0 ? 2 : (mode == 1 ? 3 : 1)) && ifx_cat(&m) == 1 && m.v == m0, "C20: function_ref<int(Mk&,int)> / <int(Mk const&,int)> / <int(Mk&&,int)> and inplace_function<int(Mk&&,int)> deliver the argument with the declared category"); }
+  VF_REACH(); }
+
+/* ---- bind_front: the four call operators, twice on the same wrapper, copy / move after a call, construction ------------------------------ */
+/*@GROUP name=bind_front_cat props=C20,C02 kind=F@*/
+void h_bind_front_cat(void) { VF_INPUT(Log, l); VF_INPUT(BFV, wv); VF_INPUT(BFV, cp); VF_INPUT(BFC, wc); VF_INPUT(BFA, wa); VF_INPUT(TgtV, t); VF_INPUT(Mk, m); VF_INPUT(int, x); VF_INPUT(int, y);
+  VF_INPUT(unsigned char, w); VF_INPUT(unsigned char, mode); VF_INPUT(unsigned char, mode2); VF_INPUT(unsigned char, acat); VF_INPUT_BOOL(rv); __CPROVER_assume(w <= 6 && mode <= 3 && mode2 <= 3 && acat <= 3);
+  wv._func.log = &l; t.log = &l; Log o = l; int b0 = BOUND(wv).v, g0 = wv._func.tag.v, c0 = BOUND(wc).v, i0 = BOUND(wa), m0 = m.v, t0 = t.tag.v;
+  if (w == 0 || w == 1 || w == 2) { int res = bfv_call(&wv, x, mode);
+    VF_ASSERT(logged3(&l, &o, b0, x, FNCAT(mode)) && res == ENC3(b0, x, FNCAT(mode)), "C20: bind_front(f, b)(x) [&, const&, &&, const&&]: f is called exactly once with (b, x) and with the wrapper's own value category / constness; result unchanged");
+    int b1 = mode == 2 ? MOVED : b0;
+    VF_ASSERT(BOUND(wv).v == b1 && wv._func.tag.v == g0 && wv._func.log == &l, "C20: the bound argument is passed as an LVALUE by the & / const& operators and as a const rvalue by const&& (the wrapper keeps its state); only && hands it out as an rvalue");
+    Log o2 = l;
+    if (w == 0) { int res2 = bfv_call(&wv, y, mode2);   /* second call on the same wrapper */
+      VF_ASSERT(logged3(&l, &o2, b1, y, FNCAT(mode2)) && res2 == ENC3(b1, y, FNCAT(mode2)), "C20: a second call of the same wrapper sees the same bound argument (unless the first call was on an rvalue wrapper)"); }
+    else { if (w == 1) bfv_copy(&cp, &wv); else bfv_move(&cp, &wv);   /* copy / move taken AFTER a call */
+      VF_ASSERT(BOUND(cp).v == b1 && cp._func.tag.v == g0 && cp._func.log == &l, "a copy / move of the wrapper carries the target and the bound argument");
+      VF_ASSERT(BOUND(wv).v == (w == 1 ? b1 : MOVED) && wv._func.tag.v == (w == 1 ? g0 : MOVED), "C20: copying leaves the wrapper unchanged; moving moves target and bound argument out");
+      int res2 = bfv_call(&cp, y, mode2);
+      VF_ASSERT(logged3(&l, &o2, b1, y, FNCAT(mode2)) && res2 == ENC3(b1, y, FNCAT(mode2)), "the copy calls an equivalent target with the same bound argument"); } }
+  else if (w == 3) VF_ASSERT(bfc_call(&wc, mode) == ARGCAT(mode) && BOUND(wc).v == c0, "C20: the bound argument reaches the target as Mk& (& call), Mk const& (const&), Mk&& (&&), Mk const&& (const&&)");
+  else if (w == 4) VF_ASSERT(bfa_call(&wa, &m, mode, acat) == ENC3(i0, ARGCAT(acat), 0) && m.v == m0 && BOUND(wa) == i0, "C20: the call arguments are forwarded behind the bound ones with their own category, by all four call operators");
+  else if (w == 5) { bfv_make(&cp, &t, &m, rv);
+    VF_ASSERT(BOUND(cp).v == m0 && cp._func.tag.v == t0 && cp._func.log == &l && log_eq(&l, &o), "bind_front(f, b) stores decayed copies of f and b and calls nothing");
+    VF_ASSERT(m.v == MOVED && t.tag.v == (rv ? MOVED : t0), "C20: bind_front forwards: an rvalue f / b is moved from, an lvalue f copied from"); }
+  else { bfv_ctor_lv(&cp, &t, &m);
+    VF_ASSERT(BOUND(cp).v == m0 && cp._func.tag.v == t0 && cp._func.log == &l && m.v == m0 && t.tag.v == t0 && log_eq(&l, &o), "C20: bind_front_t(F&&, BA&&...) from lvalues copies both (arguments unchanged)"); }
+  VF_REACH(); }
+
+/* ---- not_fn: the four call operators with a consuming callable, twice, construction, copy / move ---------------------------------------- */
+/*@GROUP name=not_fn_cat props=C20,C02 kind=F@*/
+void h_not_fn_cat(void) { VF_INPUT(Log, l); VF_INPUT(NFQ, n); VF_INPUT(NFQ, cp); VF_INPUT(NFP, np); VF_INPUT(Q4, f); VF_INPUT(Mk, m); VF_INPUT(int, x); VF_INPUT(int, y);
+  VF_INPUT(unsigned char, w); VF_INPUT(unsigned char, mode); VF_INPUT(unsigned char, mode2); VF_INPUT(unsigned char, acat); VF_INPUT_BOOL(rv); __CPROVER_assume(w <= 4 && mode <= 3 && mode2 <= 3 && acat <= 3);
+  n.f.log = &l; np.f.log = &l; f.log = &l; Log o = l; int n0 = n.f.m.v, f0 = f.m.v, m0 = m.v;
+  if (w <= 2) { _Bool res = nfq_call(&n, x, mode);
+    VF_ASSERT(l.calls == o.calls + 1u && l.a0 == x && l.a2 == o.a2 && res == !((n0 ^ x) != 0), "not_fn(f)(x) [&, const&, &&, const&&]: f called exactly once with x; result == !f(x)");
+    VF_ASSERT(l.a1 == FNCAT(mode), "C20: not_fn's call operators invoke f with the wrapper's own value category and constness");
+    int n1 = mode == 2 ? MOVED : n0;
+    VF_ASSERT(n.f.m.v == n1 && n.f.log == &l, "C20: only the && call operator passes the stored callable as an rvalue (which this callable consumes); &, const&, const&& leave it intact");
+    Log o2 = l;
+    if (w == 0) { _Bool res2 = nfq_call(&n, y, mode2);
+      VF_ASSERT(l.calls == o2.calls + 1u && l.a0 == y && l.a1 == FNCAT(mode2) && res2 == !((n1 ^ y) != 0), "C20: a second call of the same wrapper calls the same (unconsumed) target"); }
+    else { if (w == 1) nfq_copy(&cp, &n); else nfq_move(&cp, &n);
+      VF_ASSERT(cp.f.m.v == n1 && cp.f.log == &l && n.f.m.v == (w == 1 ? n1 : MOVED), "C20: a copy of the wrapper carries the callable and leaves the source unchanged; a move moves it out");
+      _Bool res2 = nfq_call(&cp, y, mode2);
+      VF_ASSERT(l.calls == o2.calls + 1u && l.a0 == y && l.a1 == FNCAT(mode2) && res2 == !((n1 ^ y) != 0), "the copy calls an equivalent target"); } }
+  else if (w == 3) { _Bool res = nfp_call(&np, &m, mode, acat);
+    VF_ASSERT(l.calls == o.calls + 1u && l.a0 == m0 && l.a1 == ARGCAT(acat) && res == !(m0 != 0) && m.v == m0, "C20: not_fn forwards its arguments (Mk& / Mk const& / Mk&& / Mk const&&) in all four call operators"); }
+  else { nfq_make(&cp, &f, rv);
+    VF_ASSERT(cp.f.m.v == f0 && cp.f.log == &l && log_eq(&l, &o), "not_fn(f) stores a decayed copy of f and calls nothing");
+    VF_ASSERT(f.m.v == (rv ? MOVED : f0), "C20: not_fn(forward<F>(f)): an lvalue f is copied from, an rvalue f moved from"); }
+  VF_REACH(); }
+
+/* ---- inplace_function holding move-marking callables ----------------------------------------------------------------------------------- */
+/*@GROUP name=ipf_cat props=C20,C02,C05 kind=F@*/
+void h_ipf_cat(void) { VF_INPUT(Log, l); VF_INPUT(Log, l2); VF_INPUT(IF, f); VF_INPUT(IF, g); VF_INPUT(unsigned char, sel); VF_INPUT(unsigned char, sel2); VF_INPUT(int, m0); VF_INPUT(int, g0); VF_INPUT(Q4, q); VF_INPUT(int, x); VF_INPUT(int, y);
+  VF_INPUT(unsigned char, w); VF_INPUT_BOOL(rv); __CPROVER_assume(w <= 4); vtq_init(); q.log = &l; int q0 = q.m.v; Log o = l, oo2 = l2;
+  if (w == 0) { if (rv) if_from_q4_rv(&f, &q); else if_from_q4(&f, &q);   /* f: indeterminate storage */
+    VF_ASSERT(f._vtable == (rv ? VT_Q4_M : VT_Q4_C) && Q4_OF(f)->log == &l && Q4_OF(f)->m.v == q0 && log_eq(&l, &o), "inplace_function(callable): holds the callable's value, calls nothing");
+    VF_ASSERT(q.m.v == (rv ? MOVED : q0), "C20: inplace_function(forward<T>(closure)): an lvalue closure is copied from (unchanged), an rvalue closure moved from"); }
+  else if (w == 1) { mk_ifq(&f, sel, &l2, m0); if_assign_q4(&f, &q, rv);
+    VF_ASSERT(HOLDS_Q4(f) && Q4_OF(f)->log == &l && Q4_OF(f)->m.v == q0 && log_eq(&l, &o) && log_eq(&l2, &oo2), "f = callable from every state: holds the callable's value, calls nothing");
+    VF_ASSERT(q.m.v == (rv ? MOVED : q0), "C20: f = forward<T>(closure): an lvalue closure is copied from, an rvalue closure moved from"); }
+  else { __CPROVER_assume(sel <= 2); mk_ifq(&f, sel, &l, m0);
+    if (w == 2) { int r = if_call(&f, x);
+      VF_ASSERT(l.calls == o.calls + 1u && l.a0 == x && l.a2 == o.a2 && r == (m0 ^ x), "operator()(x): the stored callable is called exactly once with x, result unchanged");
+      VF_ASSERT(l.a1 == 1 && HOLDS_Q4(f) && Q4_OF(f)->m.v == m0, "C20: the stored callable is called as a non-const LVALUE: it is not consumed by the call");
+      Log o2 = l; int r2 = if_call(&f, y); VF_ASSERT(l.calls == o2.calls + 1u && l.a0 == y && l.a1 == 1 && r2 == (m0 ^ y), "a second call sees the same callable"); }
+    else { if (w == 3) { if (rv) if_move(&g, &f); else if_copy(&g, &f); } else { mk_ifq(&g, sel2, &l2, g0); if (rv) if_move_assign(&g, &f); else if_assign(&g, &f); }
+      VF_ASSERT(HOLDS_Q4(g) && Q4_OF(g)->log == &l && Q4_OF(g)->m.v == m0 && log_eq(&l, &o) && log_eq(&l2, &oo2), "copy / move construction and assignment: the target holds the source's callable with its value; nothing is called");
+      if (rv) VF_ASSERT(f._vtable == VT_EMPTY, "move leaves the source empty"); else VF_ASSERT(HOLDS_Q4(f) && Q4_OF(f)->m.v == m0 && Q4_OF(f)->log == &l, "C20: copy leaves the source's callable unchanged (copied from, not moved from)");
+      int r = if_call(&g, x); VF_ASSERT(l.calls == o.calls + 1u && l.a0 == x && l.a1 == 1 && r == (m0 ^ x), "the copy calls an equivalent target"); } }
+  VF_REACH(); }
+
+/*@GROUP name=ipf_bind_front props=C20,C02,C05 kind=F@*/
+void h_ipf_bind_front(void) { VF_INPUT(Log, l); VF_INPUT(Log, l2); VF_INPUT(IFW, f); VF_INPUT(IFW, g); VF_INPUT(BFV, wv); VF_INPUT(unsigned char, sel); VF_INPUT(unsigned char, sel2); VF_INPUT(int, b0); VF_INPUT(int, t0); VF_INPUT(int, b2); VF_INPUT(int, t2);
+  VF_INPUT(int, x); VF_INPUT(int, y); VF_INPUT(unsigned char, w); VF_INPUT_BOOL(rv); __CPROVER_assume(w <= 3); vtq_init(); wv._func.log = &l; int wb = BOUND(wv).v, wt = wv._func.tag.v; Log o = l, oo2 = l2;
+  if (w == 0) { if (rv) ifw_from_bfv_rv(&f, &wv); else ifw_from_bfv(&f, &wv);
+    VF_ASSERT(f._vtable == (rv ? VT_BFV_M : VT_BFV_C) && BOUND(*BFV_OF(f)).v == wb && BFV_OF(f)->_func.tag.v == wt && BFV_OF(f)->_func.log == &l && log_eq(&l, &o), "inplace_function(bind_front wrapper): holds the wrapper's value, calls nothing");
+    VF_ASSERT(BOUND(wv).v == (rv ? MOVED : wb) && wv._func.tag.v == (rv ? MOVED : wt), "C20: an lvalue wrapper is copied from (unchanged), an rvalue wrapper moved from"); }
+  else { __CPROVER_assume(sel <= 1); mk_ifw(&f, sel, &l, b0, t0);
+    if (w == 1) { int r = ifw_call(&f, x);
+      VF_ASSERT(logged3(&l, &o, b0, x, 1) && r == ENC3(b0, x, 1), "inplace_function holding bind_front(f, b): f is called exactly once with (b, x), through the wrapper's LVALUE call operator");
+      VF_ASSERT(HOLDS_BFV(f) && BOUND(*BFV_OF(f)).v == b0 && BFV_OF(f)->_func.tag.v == t0, "C20: the call does not consume the stored wrapper's bound argument");
+      Log o2 = l; int r2 = ifw_call(&f, y); VF_ASSERT(logged3(&l, &o2, b0, y, 1) && r2 == ENC3(b0, y, 1), "C20: a second call through the inplace_function sees the same bound argument"); }
+    else { if (w == 2) { int r = ifw_call(&f, x); VF_ASSERT(r == ENC3(b0, x, 1), "first call"); if (rv) ifw_move_w(&g, &f); else ifw_copy_w(&g, &f); }
+      else { mk_ifw(&g, sel2, &l2, b2, t2); ifw_assign_w(&g, &f, rv); }
+      VF_ASSERT(HOLDS_BFV(g) && BOUND(*BFV_OF(g)).v == b0 && BFV_OF(g)->_func.tag.v == t0 && BFV_OF(g)->_func.log == &l && log_eq(&l2, &oo2), "C20: a copy / move taken (after a call) holds the wrapper with the original bound argument");
+      if (rv) VF_ASSERT(f._vtable == VT_EMPTY && !ifw_bool(&f), "move leaves the source empty"); else VF_ASSERT(HOLDS_BFV(f) && BOUND(*BFV_OF(f)).v == b0 && BFV_OF(f)->_func.tag.v == t0, "copy leaves the source unchanged");
+      Log o2 = l; int r2 = ifw_call(&g, y); VF_ASSERT(logged3(&l, &o2, b0, y, 1) && r2 == ENC3(b0, y, 1), "the copy calls an equivalent target with the same bound argument"); } }
+  VF_REACH(); }
